@@ -213,8 +213,10 @@ CLAIMS: dict[str, tuple[str, str, str, str]] = {
         "leading blanks or container-prefix characters are removed, everything else unaltered and in order, at most 3 pad "
         "spaces and only after a partially consumed tab — for every line, tShift, bsCount, indent), codespan_spec/"
         "codespan_keeps (line endings to spaces, one space stripped from each side iff both present and not all spaces), "
-        "hr_markup (marker repeated exactly as often as it occurs; line = markers and blanks). MISSING: that code_block/"
-        "fence/html_block content is the stated getLines call and fence/heading/list markup the scanned run (rules not "
+        "hr_markup (marker repeated exactly as often as it occurs; line = markers and blanks); mini_verbatim (Props/C08b: "
+        "in the modelled sub-parser every code_block/fence content is exactly the getLines cuts of the lines of its map, "
+        "fence markup+info is the opening line's text, hr markup the scanned run; getLinesB_spec, cutOf_spec). MISSING: "
+        "html_block content, heading/list/quote markup, list start/info, and code/fence inside containers (rules not "
         "modelled): oracle reconstructs every content line from its source line and counts markers. Tie: every real "
         "getLines call, code span and hr traced and compared with the model.",
         NOTE,
@@ -225,7 +227,9 @@ CLAIMS: dict[str, tuple[str, str, str, str]] = {
         "PARTIAL, with FULL theorems for: chain_only_enabled/getRules_only_enabled (a disabled rule is in no compiled chain, "
         "main or terminator: never dispatched; after any history by C11), facade_switches (tokenizer and post-processor of a "
         "name are switched together in all four rulers), routes/setOpt_other/dictGet_dictSet (the three option routes are one "
-        "assignment on one backing dict), definition_renders_empty. MISSING: provenance of token kinds per rule and the "
+        "assignment on one backing dict), definition_renders_empty; mini_provenance / mini_no_hr / mini_no_code / mini_zero "
+        "(Props/C10b: in the modelled sub-parser every token kind comes from an enabled rule, under all 16 rule subsets). "
+        "MISSING: provenance for the other rules and the "
         "conservative-extension clause need per-rule models: decided by the oracle (token kinds under random rule subsets; "
         "table/strikethrough on vs off on trigger-free inputs; definition options erase to the plain parse, env and HTML equal; "
         "switches issued while a render is in flight). Tie: Ruler/facade/options model of C11/C12 + route requests.",
